@@ -119,6 +119,8 @@ func tpBuild(tree []tpNode, rec *tpRec) (root parsley.Node, nodes []parsley.Node
 			var in parsley.Interpreter
 			base := plainI{rec}
 			switch nd.Cap {
+			case "none":
+				in = nil
 			case "checker":
 				in = checkerI{base}
 			case "transformer":
@@ -208,10 +210,20 @@ func tpObserve(tree []tpNode, list bool, stopK, failAt int) J {
 			r = tpRender(res)
 		}
 		obs["transform"] = J{"log": nz(rec.log), "failed": terr != nil, "result": r}
+		evaluable := true
+		for _, nd := range tree {
+			if nd.K == "nt" && nd.Cap == "none" {
+				evaluable = false
+			}
+		}
+		if !evaluable {
+			obs["eval"] = J{"log": []int{}, "failed": false, "skip": true}
+			return
+		}
 		rec = &tpRec{failAt: failAt}
 		root, _ = tpBuild(tree, rec)
 		_, eerr := parsley.EvaluateNode(nil, root)
-		obs["eval"] = J{"log": nz(rec.log), "failed": eerr != nil}
+		obs["eval"] = J{"log": nz(rec.log), "failed": eerr != nil, "skip": false}
 	})
 	if m != "" {
 		obs["panic"] = m
@@ -301,7 +313,7 @@ func treepassMain(mode string, a args) {
 		}
 		r := rand.New(rand.NewSource(int64(a.num("seed", 1))))
 		n, maxn := a.num("n", 60), a.num("maxnodes", 200)
-		caps := []string{"plain", "checker", "transformer", "both"}
+		caps := []string{"plain", "checker", "transformer", "both", "none"}
 		for c := 0; c < n; c++ {
 			sz := 1 + r.Intn(maxn)
 			tree := make([]tpNode, sz)
@@ -318,7 +330,7 @@ func treepassMain(mode string, a args) {
 			}
 			for i := range tree {
 				if len(tree[i].Kids) > 0 {
-					tree[i].K, tree[i].Cap = "nt", caps[r.Intn(4)]
+					tree[i].K, tree[i].Cap = "nt", caps[r.Intn(5)]
 					if r.Intn(3) > 0 && tree[i].Cap == "transformer" {
 						tree[i].Cap = "checker" // transformers cut the recursion: keep most trees deep
 					}
@@ -327,7 +339,7 @@ func treepassMain(mode string, a args) {
 					case 0:
 						tree[i].K = "empty"
 					case 1:
-						tree[i].K, tree[i].Cap = "nt", caps[r.Intn(4)]
+						tree[i].K, tree[i].Cap = "nt", caps[r.Intn(5)]
 					default:
 						tree[i].K = "term"
 					}
